@@ -298,6 +298,31 @@ pub(crate) mod __verif_k {
         }
     }
 
+    /// two integers are equal exactly when they are the same integer (== and != through the operator wrappers too)
+    #[kani::proof]
+    #[kani::stub(std::fmt::format, fmt_stub)]
+    fn c15_int_eq_exact() {
+        let a = any_int();
+        let b = any_int();
+        let (x, y) = (Object::int(a), Object::int(b));
+        assert!((x == y) == (a == b));
+        assert!((x != y) == (a != b));
+        kani::cover!(a != b && (a as f64) == (b as f64));
+        kani::cover!(a == b);
+    }
+
+    /// two floats are equal exactly when IEEE says so
+    #[kani::proof]
+    fn c15_float_eq_exact() {
+        let a: u64 = kani::any();
+        let b: u64 = kani::any();
+        let (x, y) = (Float::from_f64(f64::from_bits(a)), Float::from_f64(f64::from_bits(b)));
+        assert!((x == y) == (f64::from_bits(a) == f64::from_bits(b)));
+        kani::cover!(a != b && x == y);
+        kani::cover!(a == b && x != y);
+        std::mem::forget((x, y));
+    }
+
     /// among scalars, text and functions: equal <=> same type and same content (NaN excepted by IEEE ==)
     #[kani::proof]
     #[kani::unwind(8)]
